@@ -68,7 +68,7 @@ def events(darsia, rng, shapes, quick, arrangements):
     dtypes = ["float64", "float32"]
     # uniform refinement / coarsening
     for s in shapes:
-        for lev in ([1, 2] if quick else [1, 2, 3]):
+        for lev in ([1, 2] + ([3] if max(s) <= 3 else []) if quick else [1, 2, 3]):     # (the largest level on the small shapes also in the quick tier)
             dt = rng.choice(dtypes)
             a = rand_arr(rng, s, dt)
             img = image(darsia, a, [0.5, 0.25])
